@@ -21,7 +21,7 @@ Fixpoint ok_expr (e : expr) : bool :=
   | ECond c t f => ok_expr c && ok_expr t && ok_expr f
   | ETuple es | EList es => forallb ok_expr es
   | ECall fn args _ => ok_expr fn && forallb (fun a => match a with APos e => ok_expr e | _ => false end) args
-  | EDict _ | ELambda _ _ _ _ | EComp _ _ _ _ _ => false
+  | EDict _ | ELambda _ _ _ _ | EComp _ _ _ _ _ | ESlice _ _ _ _ _ => false
   end.
 
 Definition ok_target (t : target) : bool :=
@@ -52,7 +52,27 @@ Fixpoint ok_stmt (s : stmt) : bool :=
 Definition ok_fundef (fd : fundef) : bool :=
   forallb plain_param (fd_params fd) && forallb ok_stmt (fd_body fd) && is_nil (boxed_names (fd_body fd)).
 
-Definition in_fragment (p : program) : bool := forallb ok_stmt (p_body p).
+Definition ok_prog (p : program) : bool := forallb ok_stmt (p_body p).
+
+(* defs are not nested inside other defs (they may sit under top-level if / for / while) *)
+Fixpoint no_defs_stmt (s : stmt) : bool :=
+  match s with
+  | SIf _ tb fb => forallb no_defs_stmt tb && forallb no_defs_stmt fb
+  | SWhile _ b | SFor _ _ b _ => forallb no_defs_stmt b
+  | SDef _ _ _ _ _ => false
+  | _ => true
+  end.
+Fixpoint flat_stmt (s : stmt) : bool :=
+  match s with
+  | SIf _ tb fb => forallb flat_stmt tb && forallb flat_stmt fb
+  | SWhile _ b | SFor _ _ b _ => forallb flat_stmt b
+  | SDef _ _ _ body _ => forallb no_defs_stmt body
+  | _ => true
+  end.
+Definition flat_prog (p : program) : bool := forallb flat_stmt (p_body p).
+
+(* THE FRAGMENT *)
+Definition in_fragment (p : program) : bool := ok_prog p && flat_prog p.
 
 (* function ids identify definitions: looking an id up in the syntax tree (what
    the reference evaluator does) and in the compiled program agree, every
